@@ -97,6 +97,11 @@ def configs(tier):
                     for sc in (2, 2.0, 0.5):
                         cfgs.append({'kind': 'sepsum', 'f1': f1, 'f2': f2, 'sigma': s, 'sk': sk,
                                      'scale': sc})
+                if sk == 'scalar' and s == sig[0]:
+                    # sub-sums taken out of a longer sum by indexing: SeparableSum(f1, f2, f1)[idx]
+                    for pick in ('0:2', '1:3', '::2', '1', '-1'):
+                        cfgs.append({'kind': 'sepsum', 'f1': f1, 'f2': f2, 'sigma': s, 'sk': sk,
+                                     'pick': pick})
                 if f1 == f2:
                     # the documented power form SeparableSum(f, 2): ONE functional object twice
                     cfgs.append({'kind': 'sepsum', 'f1': f1, 'f2': f2, 'sigma': s, 'sk': sk,
@@ -129,6 +134,9 @@ def _site(cfg):
     if k == 'sepsum':
         if cfg.get('same'):
             return 'SeparableSum(%s,2).proximal[sigma=%s]' % (cfg['f1'], cfg['sk'])
+        if cfg.get('pick'):
+            return 'SeparableSum(%s,%s,%s)[%s].proximal' % (cfg['f1'], cfg['f2'], cfg['f1'],
+                                                          'int' if ':' not in cfg['pick'] else 'slice')
         if cfg.get('scale'):
             return '(%s*SeparableSum(%s,%s)).proximal[sigma=%s]' % (
                 'int' if isinstance(cfg['scale'], int) else 'float', cfg['f1'], cfg['f2'], cfg['sk'])
@@ -206,6 +214,18 @@ def _build(cfg):
             f = odl.solvers.SeparableSum(s1.build(i2.space, s1.opts[0]),
                                          s2.build(i2.space, s2.opts[0]))
         r1, r2 = s1.ref(i2, s1.opts[0]), s2.ref(i2, s2.opts[0])
+        if cfg.get('pick'):
+            parts = [(s1, r1), (s2, r2), (s1, r1)]
+            f3 = odl.solvers.SeparableSum(*[sp_.build(i2.space, sp_.opts[0]) for sp_, _ in parts])
+            pk = cfg['pick']
+            if ':' in pk:
+                idx = slice(*[int(t) if t else None for t in pk.split(':')])
+                ra, rb = [r for _, r in parts[idx]]
+                f = f3[idx]
+                info = _PInfo(f.domain)
+                return f, info, (lambda z: DV._add(ra(z[:2]), rb(z[2:]))), [-2.0, 0.0, 0.5, 3.0], 1e-6
+            f = f3[int(pk)]
+            return f, i2, parts[int(pk)][1], [-2.0, 0.0, 0.5, 3.0], 1e-6
         info = _PInfo(f.domain)
         ref = lambda z: DV._add(r1(z[:2]), r2(z[2:]))
         if cfg.get('scale'):
@@ -294,6 +314,14 @@ RAWREF = {
         lambda info, o: (lambda p, r=FR.ref_kl_ce_cc(info, _gvec(info, o, True)):
                          o['lam'] * r(np.asarray(p) / o['lam'])),
     'proximal_huber': lambda info, o: FR.ref_huber(info, o['gamma']),
+    # factories that the Functional classes reach only with their default arguments (or not at all):
+    # judged on their own with every documented form of the bounds
+    'proximal_const_func': lambda info, o: (lambda z: 0.0),
+    'proximal_nonnegativity': lambda info, o: FR.ref_box(info, 0.0, None),
+    'proximal_box_constraint': lambda info, o: FR.ref_box(
+        info,
+        (np.resize([-1.0, -0.5, 0.0, -2.0], info.n) if o.get('lower') == 'elem' else o.get('lower')),
+        (np.resize([0.5, 1.0, 2.0, 0.0], info.n) if o.get('upper') == 'elem' else o.get('upper'))),
 }
 
 
